@@ -126,12 +126,12 @@ theorem open_both_slots (h0 h1 : Header) (b0 b1 : Bool) (es : List (Entry × Boo
   by_cases hb : b0 = b1
   · subst hb
     simp only [beq_self_eq_true, ite_true, decode_slot h0 w0]
-    simp only [c3, ite_true, dE, State.currentBit]
+    simp only [readLog, c3, ite_true, dE, State.currentBit]
     rw [hEdef] at hre ⊢
     rw [hre]
   · have hbe : (b0 == b1) = false := by simpa using hb
     simp only [hbe, Bool.false_eq_true, ite_false, decode_slot h1 w1]
-    simp only [c3, ite_true, dE, State.currentBit]
+    simp only [readLog, c3, ite_true, dE, State.currentBit]
     rw [hEdef] at hre ⊢
     rw [hre]
 
